@@ -46,7 +46,7 @@ STMT_END = {}       # (abs path, first line of a multi-line statement in a site 
 def _build_tables():
     seen = set()
     for r in ROWS:
-        if r["attr"] != "_name" or not r.get("events"):
+        if not r.get("events") or r["valueKind"] not in ("perCall", "ownerName"):
             continue
         path = os.path.join(SW.repo_dir(), r["path"])
         path = os.path.abspath(path)
@@ -278,6 +278,13 @@ def _build_shape(name):
             b = ImmutableSet[it if name == "shared_immset" else _nn()]
             _required = []
         return Shape(name, Im, racy=name == "shared_immset")
+    if name == "mapper_struct":
+        class Mq(Structure):
+            a = Array[Integer(minimum=0)]
+            b = Integer
+            _required = []
+            _serialization_mapper = {"a": "items", "b": "count"}
+        return Shape(name, Mq, racy=True)
     if name == "nested_struct":
         class Inner(Structure):
             x = Integer(minimum=0)
@@ -309,13 +316,32 @@ E_SHAPES = ["shared_anyof", "shared_allof", "shared_oneof", "shared_notfield", "
             "array_allof", "array_notfield", "array_set", "array_immset", "array_map", "array_array", "array_pos",
             "array_dequepos", "array_tuple", "immset", "shared_immset", "anyof", "oneof", "allof", "notfield",
             "nested_struct", "scalar"]
-ALL_SHAPES = A_SHAPES + E_SHAPES
+ALL_SHAPES = A_SHAPES + E_SHAPES + ["mapper_struct"]
 
 # ------------------------------------------------------------------ value generation (JSON descriptions)
 
 
+_BASE = [0]   # thread index: every thread draws its integers from its own range, so a foreign value is recognisable
+
+
 def _int(rng, bad=0.2):
-    return -rng.randint(1, 9) if rng.random() < bad else rng.randint(0, 99)
+    t = _BASE[0]
+    return -(10 * t + rng.randint(1, 9)) if rng.random() < bad else 100 * t + rng.randint(0, 99)
+
+
+def ints_in(j, acc=None):
+    acc = set() if acc is None else acc
+    if isinstance(j, bool):
+        return acc
+    if isinstance(j, int):
+        acc.add(j)
+    elif isinstance(j, dict):
+        for v in j.values():
+            ints_in(v, acc)
+    elif isinstance(j, (list, tuple)):
+        for v in j:
+            ints_in(v, acc)
+    return acc
 
 
 def gen_value(rng, sname, field, bad=0.2):
@@ -363,6 +389,8 @@ def gen_value(rng, sname, field, bad=0.2):
             "tuple": lambda: {"t": [_int(rng, bad / 2), "s"]},
         }[inner]
         return {"l": [one() for _ in range(n)]}
+    if sname == "mapper_struct":
+        return {"l": [_int(rng, bad) for _ in range(rng.randint(1, 3))]} if field == "a" else _int(rng, 0.0)
     if sname == "nested_struct":
         def inner():
             return {"d": {"x": _int(rng, bad / 2), "tags": {"l": [rng.choice("uvw") for _ in range(rng.randint(0, 2))]}}}
@@ -441,11 +469,10 @@ def reset_caches(sh):
                 walk(g, True)
     for f in sh.cls.get_all_fields_by_name().values():
         walk(f, True)
-    try:
-        from typedpy.serialization import mappers as _m
-        getattr(_m, "aggregated_mapper_by_class", {}).clear()
-    except Exception:
-        pass
+    _m = sys.modules.get("typedpy.serialization.mappers")   # the module (the package exports an enum of that name)
+    cache = getattr(_m, "aggregated_mapper_by_class", None)
+    if isinstance(cache, dict):
+        cache.clear()
 
 
 # ------------------------------------------------------------------ the scheduler
@@ -491,7 +518,7 @@ class Run:
 
     def tracer(self, tid):
         evlines = EVLINES
-        events_only = self.scope == "events"
+        events_only = self.scope == "events"   # "sitelines": every line of a site function is a yield point
 
         last = [None, 0]
 
@@ -521,7 +548,8 @@ class Run:
     def yield_point(self, tid, frame, evs):
         with self.cond:
             fn = frame.f_code.co_filename
-            interesting = evs is not None or (os.sep + "fields" + os.sep in fn) or (os.sep + "serialization" + os.sep in fn)
+            interesting = (evs is not None or (os.sep + "fields" + os.sep in fn) or (os.sep + "serialization" + os.sep in fn)
+                           or frame.f_code.co_name in ("__set__", "_validate", "__get__"))
             self.ylog.append((tid, interesting, [j for j in range(self.n) if j != tid and not self.done[j]]))
             self.since += 1
             if self.k < len(self.pre) and self.since == self.pre[self.k][0]:
@@ -752,7 +780,7 @@ def run_impl(case):
     seq, allowed = sequential(case)
     stream = case["stream"]
     if stream in ("A", "E"):
-        runs = enumerate_runs(case, "events", case["max_pre"], case["cap"], rng)
+        runs = enumerate_runs(case, case.get("yield", "events"), case["max_pre"], case["cap"], rng)
     else:
         runs = sample_runs(case, case["max_pre"], case["nsched"], rng)
     distinct = {}
@@ -808,6 +836,15 @@ def oracle(case, impl):
     fails = []
     seen = set()
     for o in impl.get("outcomes", []):
+        for i, th in enumerate(case["threads"]):
+            r = o["res"][i]
+            if "ok" in r and not ints_in(r["ok"]) <= ints_in(th):
+                key = f"foreign-value:{case['shape']}"
+                if key not in seen:
+                    seen.add(key)
+                    fails.append((key, f"shape {case['shape']} threads {json.dumps(case['threads'])} schedule "
+                                       f"{json.dumps(o['sched'])}: the instance of thread {i} contains a value that is "
+                                       f"not in its own input: {json.dumps(r['ok'])[:200]}"))
         if not o["bad"]:
             continue
         i = o["bad"][0]
@@ -820,7 +857,9 @@ def oracle(case, impl):
             # the code read a shared `_name` it had not written (e.g. deserializer calling item._validate())
             keys = [f"residual-name-in-message:{th['op']}"]
         else:
-            keys = o["conflicts"] or [f"nonsequential:{case['shape']}:{th['op']}"]
+            # shapes whose threads only ever write EQUAL values into a shared cell (same field, private item objects)
+            # must be sequential: there a deviation is never attributed to a known racy site
+            keys = (o["conflicts"] if shape(case["shape"]).racy else []) or [f"nonsequential:{case['shape']}:{th['op']}"]
         for key in keys:
             if key in seen:
                 continue
@@ -862,7 +901,8 @@ def describe(case, impl, model):
 # ------------------------------------------------------------------ case generation
 
 
-def gen_thread(rng, sname, stream, field=None):
+def gen_thread(rng, sname, stream, field=None, tid=0):
+    _BASE[0] = tid
     fs = fields_of(sname)
     f = field or rng.choice(fs)
     if stream in ("A", "E"):
@@ -883,7 +923,7 @@ def pick_fields(rng, sname, n):
     fs = fields_of(sname)
     if sname.startswith("shared_") or sname == "array_two_fields":
         return [fs[i % len(fs)] for i in range(n)]
-    return [rng.choice(fs) if sname in ("scalar", "nested_struct") else fs[0] for _ in range(n)]
+    return [rng.choice(fs) if sname in ("scalar", "nested_struct", "mapper_struct") else fs[0] for _ in range(n)]
 
 
 CANONICAL = [
@@ -900,6 +940,19 @@ CANONICAL = [
 ]
 
 
+CANONICAL_B = [
+    ("mapper_struct", ["serialize", "serialize"]),
+    ("mapper_struct", ["serialize", "deserialize"]),
+    ("array_int", ["serialize", "serialize"]),
+    ("array_set", ["serialize", "serialize"]),
+    ("scalar", ["setattr", "setattr"]),
+    ("scalar", ["construct", "construct"]),
+    ("anyof", ["setattr", "setattr"]),
+    ("oneof", ["setattr", "construct"]),
+    ("nested_struct", ["construct", "deserialize"]),
+    ("nested_struct", ["serialize", "serialize"]),
+]
+
 CANONICAL_E = [
     ("shared_anyof", 5, 7),
     ("shared_allof", -1, 7),
@@ -913,13 +966,13 @@ def gen_cases(rng, tier, scale=1.0):
 
     def add(stream, sname, n, **kw):
         fl = pick_fields(rng, sname, n)
-        ths = [gen_thread(rng, sname, stream, fl[i]) for i in range(n)]
+        ths = [gen_thread(rng, sname, stream, fl[i], i) for i in range(n)]
         c = {"stream": stream, "shape": sname, "threads": ths, "sseed": rng.randrange(1 << 30)}
         c.update(kw)
         cases.append(c)
 
     max_pre = 2 if quick else 3
-    reps_a = max(1, int((2 if quick else 6) * scale))
+    reps_a = max(1, int((2 if quick else 4) * scale))
     # the inputs of the kernel-checked counter-schedule theorems of Props/C20.lean, replayed on the real code
     for sname, v0, v1 in CANONICAL:
         fl = pick_fields(rng, sname, 2)
@@ -928,20 +981,33 @@ def gen_cases(rng, tier, scale=1.0):
                                   {"op": "setattr", "field": fl[1], "value": v1}]})
     for sname in A_SHAPES:
         for _ in range(reps_a):
-            add("A", sname, 2, max_pre=max_pre, cap=150 if quick else 1500)
+            add("A", sname, 2, max_pre=max_pre, cap=150 if quick else 1000)
         if sname in ("array_int", "shared_set", "map_int") or not quick:
             add("A", sname, 3, max_pre=2, cap=120 if quick else 600)
     for sname, v0, v1 in CANONICAL_E:
         fl = pick_fields(rng, sname, 2)
-        cases.append({"stream": "E", "shape": sname, "sseed": 1, "max_pre": 2, "cap": 400,
+        cases.append({"stream": "E", "shape": sname, "sseed": 1, "max_pre": 2, "cap": 400, "yield": "sitelines",
                       "threads": [{"op": "setattr", "field": fl[0], "value": v0},
                                   {"op": "setattr", "field": fl[1], "value": v1}]})
-    reps_e = max(1, int((1 if quick else 4) * scale))
+    reps_e = max(1, int((1 if quick else 3) * scale))
     for sname in E_SHAPES:
         for _ in range(reps_e):
-            add("E", sname, 2, max_pre=max_pre, cap=100 if quick else 1000)
+            flat = sname in ("anyof", "oneof", "allof", "notfield") or sname.startswith("shared_")
+            add("E", sname, 2, max_pre=max_pre, cap=100 if quick else 700, **({"yield": "sitelines"} if flat else {}))
+    # fixed operation mixes (values still random): cold-cache serialization races, scalar assignment, wrappers
+    for sname, ops in CANONICAL_B:
+        ths = []
+        for i, op in enumerate(ops):
+            _BASE[0] = i
+            fs = fields_of(sname)
+            if op == "setattr":
+                ths.append({"op": op, "field": fs[0], "value": gen_value(rng, sname, fs[0], bad=0.1)})
+            else:
+                ths.append({"op": op, "kw": {g: gen_value(rng, sname, g, bad=0.0 if op == "serialize" else 0.1) for g in fs}})
+        cases.append({"stream": "B", "shape": sname, "threads": ths, "sseed": rng.randrange(1 << 30),
+                      "max_pre": max_pre, "nsched": 40 if quick else 200})
     reps_b = max(1, int((1 if quick else 4) * scale))
     for sname in ALL_SHAPES:
         for _ in range(reps_b):
-            add("B", sname, 3 if rng.random() < 0.2 else 2, max_pre=max_pre, nsched=25 if quick else 150)
+            add("B", sname, 3 if rng.random() < 0.2 else 2, max_pre=max_pre, nsched=25 if quick else 100)
     return cases
